@@ -193,6 +193,9 @@ def run_property(prop, tier, replay=None):
             # RFC-exact bytes / RFC-exact acceptance
             if v.get("kind") == "ls_deviation_in_use" and prop not in ("C07", "C02"):
                 continue
+            # the note "a list with signatures longer than 65535 bytes was refused" matters to completeness only
+            if v.get("kind") == "long_signature_refused" and prop != "C01":
+                continue
             f = vlib.match_known(prop, v, known)
             if f is not None:
                 known_hits.setdefault(f["id"], [f, 0])[1] += 1
@@ -241,7 +244,7 @@ def run_property(prop, tier, replay=None):
     coverage["states"] = max(coverage["states"], 1)
     coverage["transitions"] = max(coverage["transitions"], 1)
     assumptions = P.get("assumptions", []) + props.COMMON_ASSUMPTIONS
-    if not replay:
+    if not replay and not os.environ.get("VERIF_NO_EVIDENCE"):
         vlib.write_evidence(prop, tier, P.get("level", "model_checking"), coverage, assumptions, time.time() - t0, len(violations))
     log("%s %s: %d groups, %d events, %d violations, %d known-finding matches, %.1fs" %
         (prop, tier, total_groups, coverage["events_validated"], len(violations), sum(c for _, c in known_hits.values()), time.time() - t0))
